@@ -246,7 +246,9 @@ def run(chk):
                             jobs.append({"k": "t%d_u%d_%d" % (k, ti, ei_), "cls": "undeclared-model", "key": "undeclared-model:" + m_[1], "threads": th,
                                          "obs": {ti: repl(trace.ev_bytes(mcv, e["clock"]))}, "expect": True})
                     if n % 3 == 1:
-                        mcv = r.choice(["OZz", "OH?", "OUq", "OFx", "OB?", "OAq", "OM?", "ZZZ", "\x01\x02\x03", "O\x00\x00", "oHx", "Ohx", "VZz", "VY?"])
+                        # (OU? and OB? are not unknown: the base model ignores the value byte of its burst and unordered-region
+                        #  categories, as the event catalogue property C18 states; they were removed from this list)
+                        mcv = r.choice(["OZz", "OH?", "OFx", "OAq", "OM?", "ZZZ", "\x01\x02\x03", "O\x00\x00", "oHx", "Ohx", "VZz", "VY?"])
                         if mcv[0] == "V" and "nosv" not in req:
                             mcv = "OZz"
                         jobs.append({"k": "t%d_k%d_%d" % (k, ti, ei_), "cls": "unknown-event", "key": "unknown-event:" + mcv.encode("latin1").hex(), "threads": th,
